@@ -2909,7 +2909,8 @@ def reparse_corpus():
             words = [{"2": "x", "3": "y", "7": "z"}.get(v, v) for v in vals]
             rq = {"form": dobj([("ids", {"a": [ds(v) for v in vals]}), ("tags", {"a": [ds(w) for w in words]}),
                                 ("n", {"a": [ds(v) for v in vals]}), ("name", {"a": [ds("nm")]})]),
-                  "path": dobj([("id", ds("5"))]), "header": dobj([("X-Ids", {"a": [ds("a"), ds("b")]})]),
+                  "path": dobj([("id", ds("5"))]),
+                  "header": dobj([("X-Ids", {"a": [ds(h) for h in [["a", "b"], ["", "a"], [" a", "b "], ["a", "", "b"], ["a"]][k % 5]]})]),
                   "bodydoc": dobj([("b", dn("3"))])}
             rq = transported(rq, transport, split=("ids", "name") if k % 2 else ("tags", "n"))
             order = [("ParseForm", filt), ("Parse", full), ("Parse", full), ("GetFormValues", full), ("ParseForm", full),
@@ -2958,6 +2959,8 @@ def reparsed(rng, n):
             continue
         rq = c["req"]
         rq["form"] = with_empties(rng, rq.get("form"))
+        if rng.random() < 0.5:
+            rq["header"] = with_empties(rng, rq.get("header"))
         if rq.get("postform") and rng.random() < 0.5:
             rq["multipart"] = True
             if any(not all(32 < ord(ch) < 127 and ch not in '"\\' for ch in kv["k"]) for kv in (rq.get("form") or dobj([]))["o"]):
